@@ -3,20 +3,20 @@ CONSTANTS
   NP = 2
   Gens = 2
   Thr = 2
-  NT = 3
-  MaxFlush = 0
+  NT = 2
+  MaxFlush = 1
   MaxWait = 1
   MaxTick = 1
   MaxAdv = 1
-  MaxPanic = 1
-  Fix = "none"
+  MaxPanic = 0
+  Fix = "inflight"
   Routed = FALSE
   Hook = FALSE
   Steer = TRUE
   Emit = TRUE
-  Sizes = {1}
-  Targets = {}
-  Canon = FALSE
-INVARIANTS PrintFinal
+  Sizes <- SzAll
+  Targets = {"zeroOnly"}
+  Canon = TRUE
+INVARIANTS PrintHits
 VIEW View
 CHECK_DEADLOCK FALSE
